@@ -61,7 +61,7 @@ def _gen_colr1(rng):
     if rng.random() < 0.25:
         over_["clipbox_quantization"] = rng.choice([1, 7, 64])
     if rng.random() < 0.2:
-        over_["reuse_tolerance"] = -1
+        over_["reuse_tolerance"] = rng.choice([-1, -1, -0.25, -3])
     glyphs = e2e.gen_glyphset(rng)
     if rng.random() < 0.15:
         _add_sibling_radials(rng, glyphs)
@@ -348,7 +348,7 @@ def _gen_otsvg(rng, i=None):
         fmt = rng.choice(["picosvg", "picosvg", "picosvgz"])
     over_ = _cfg_variants(rng, fmt)
     if not forced and rng.random() < 0.2:
-        over_["reuse_tolerance"] = -1
+        over_["reuse_tolerance"] = rng.choice([-1, -1, -0.25, -3])
     glyphs = e2e.gen_glyphset(rng, n_glyphs=rng.randint(2, 4) if forced else None)
     if forced == "sibling" or rng.random() < 0.2:
         _add_sibling_radials(rng, glyphs)
@@ -598,7 +598,7 @@ class e2e_colr_to_svg:
     }
 
 
-def _gen_mixed_records(rng):
+def _gen_mixed_records(rng, i=0):
     """solid, opaque, un-reused COLRv1 glyphs; the first one is then stored as a v0-style
     record (BaseGlyphRecord + LayerRecords) inside the version 1 table -- what
     fontTools.colorLib.buildCOLR(version=None), ufo2ft and fontmake write for plainly layered
@@ -611,10 +611,12 @@ def _gen_mixed_records(rng):
             sh.fill.index = None
             if getattr(sh.fill, "current", False):
                 sh.fill = e2e.Solid((10, 20, 30), 1.0)
-    return {"glyphs": glyphs, "overrides": dict(color_format="glyf_colr_1", output_file="out.ttf", reuse_tolerance=-1)}
+    # every other case keeps the glyph's BaseGlyphList entry next to its v0 record (the
+    # arrangement the specification describes for v0-only renderers: the v1 entry wins)
+    return {"glyphs": glyphs, "overrides": dict(color_format="glyf_colr_1", output_file="out.ttf", reuse_tolerance=-1), "both": i % 2 == 1}
 
 
-def _build_with_v0_records(glyphs, overrides):
+def _build_with_v0_records(glyphs, overrides, both=False):
     from fontTools.ttLib.tables import otTables as ot
     from fontTools import ttLib
     import io
@@ -636,8 +638,9 @@ def _build_with_v0_records(glyphs, overrides):
             raise AssertionError(f"unexpected paint format {p.Format} in a solid, un-reused glyph")
 
     walk(rec.Paint)
-    table.BaseGlyphList.BaseGlyphPaintRecord.remove(rec)
-    table.BaseGlyphList.BaseGlyphCount = len(table.BaseGlyphList.BaseGlyphPaintRecord)
+    if not both:
+        table.BaseGlyphList.BaseGlyphPaintRecord.remove(rec)
+        table.BaseGlyphList.BaseGlyphCount = len(table.BaseGlyphList.BaseGlyphPaintRecord)
     table.BaseGlyphRecordArray = ot.BaseGlyphRecordArray()
     b = ot.BaseGlyphRecord()
     b.BaseGlyph, b.FirstLayerIndex, b.NumLayers = target, 0, len(leaves)
@@ -650,7 +653,7 @@ def _build_with_v0_records(glyphs, overrides):
         l.LayerGlyph, l.PaletteIndex = gname, idx
         table.LayerRecordArray.LayerRecord.append(l)
     table.LayerRecordCount = len(leaves)
-    if getattr(table, "ClipList", None) and target in table.ClipList.clips:
+    if not both and getattr(table, "ClipList", None) and target in table.ClipList.clips:
         del table.ClipList.clips[target]
     buf = io.BytesIO()
     font.save(buf)
@@ -669,7 +672,7 @@ class e2e_colr_to_svg_v0_records_in_v1_table:
         # every colour glyph of the font gets its SVG -- also the ones a version 1 table
         # stores as v0-style layer records -- and colr_glyphs lists it
         "svg-renders-what-the-paint-graph-renders": lambda glyphs, result: _colr_to_svg_mismatch(glyphs, result) == [],
-        "listed-as-colour-glyph": lambda glyphs, result: _listed(glyphs, result),
+        "listed-as-colour-glyph-once": lambda glyphs, result: _listed(glyphs, result),
     }
 
 
@@ -677,7 +680,9 @@ def _listed(glyphs, result):
     from nanoemoji import colr_to_svg
 
     font = result["font"]
-    return {font.getGlyphName(i) for i in colr_to_svg.colr_glyphs(font)} >= {_name(g) for g in glyphs if list(e2e.all_shapes(g))}
+    ids = list(colr_to_svg.colr_glyphs(font))
+    # every colour glyph once (maximum_color makes one build edge per listed glyph)
+    return len(ids) == len(set(ids)) and {font.getGlyphName(i) for i in ids} >= {_name(g) for g in glyphs if list(e2e.all_shapes(g))}
 
 
 def _gen_colr_glyph_refs(rng, i=0):
@@ -966,13 +971,13 @@ def _gen_copies(rng):
     else:
         glyphs.append(e2e.GlyphSpec(vb, [e2e.Shape(pts, e2e.Solid(e2e._rgb(rng))) for pts in copies], (0xE000,)))
     fmt = rng.choice(["glyf_colr_1", "picosvg"])
-    return {"glyphs": glyphs, "overrides": dict(color_format=fmt, output_file="out.ttf", reuse_tolerance=rng.choice([0.1, 0.1, -1]))}
+    return {"glyphs": glyphs, "overrides": dict(color_format=fmt, output_file="out.ttf", reuse_tolerance=rng.choice([0.1, 0.1, -1, -0.5]))}
 
 
 def _storage_problems(glyphs, overrides, result):
     font = result["font"]
     n = sum(len(list(e2e.all_shapes(g))) for g in glyphs)
-    reuse = overrides["reuse_tolerance"] != -1
+    reuse = overrides["reuse_tolerance"] >= 0
     bad = []
     if "COLR" in font:
         ev = e2e.ColrEval(font)
